@@ -129,7 +129,7 @@ def decoder_requests(rnd, tier):
             elif r < 0.8:
                 script.append("w")
             elif r < 0.9:
-                script.append(f"ws:{rnd.choice([0, 1, 2, 5])}")
+                script.append(f"ws:{rnd.choice([0, 1, 2, 5, 1 << 61, 1 << 62, 1 << 63, (1 << 64) - 1, (1 << 63) - 1])}")   # counts whose byte size overflows: no allocation may be sized by the request
             else:
                 script.append("q")
         reqs.append(f"dec {buf.hex() or '-'} " + " ".join(script))
